@@ -171,7 +171,7 @@ def gen_numeric(ctx: Ctx, frozen=False, single=False, malformed=False, window=Fa
         spec = [rng.randint(0, n - 2)]
     if malformed:
         spec = gen_planes(rng, n, weird=True)
-        if spec == sorted(set(spec)) and spec[0] >= -1:  # still acceptable (strictly increasing from -1; no upper bound is enforced)
+        if spec == sorted(set(spec)) and all(-1 <= q < n for q in spec):  # the mutation happened to stay valid
             spec = spec + [spec[0]]
     builder = rng.choice(["plane", "probe"])
     det = rng.choice(["waves", "pixelated"] if builder == "plane" else ["waves", "annular", "flexible", "pixelated"])
@@ -180,12 +180,16 @@ def gen_numeric(ctx: Ctx, frozen=False, single=False, malformed=False, window=Fa
         scan = [[dyadic(rng, 0, 3.5, 2), dyadic(rng, 0, 3.5, 2)] for _ in range(rng.randint(1, 3))]
     pot = rng.choice(["atoms", "atoms", "array", "crystal"])
     nfp = rng.randint(1, MAX_CONFIGS) if frozen and pot != "crystal" else 0
-    if pot == "array" and nfp > 1:
-        nfp = 1  # eager build of a multi-configuration ensemble is C10's subject (DESIGN §7 F2), not this property's
     if window:
         n = max(n, 2)
         thickness = (thickness + [1.0])[:n] if len(thickness) >= n else thickness + [1.0] * (n - len(thickness))
-    return dict(window=(rng.randint(1, n - 1) if window else 0), malformed=malformed, entry=rng.choice(["builder", "builder", "real", "reciprocal"]),
+    win = 0
+    if window:
+        a = rng.choice([0, 0, rng.randint(0, n - 1)])
+        win = [a, rng.randint(a + 1, n)]
+        if win == [0, n]:
+            win = [0, n - 1]
+    return dict(window=win, malformed=malformed, entry=rng.choice(["builder", "builder", "real", "reciprocal"]),
                 thickness=thickness, atoms=atoms, spec=spec, builder=builder, det=det, scan=scan,
                 gpts=rng.choice([8, 12, 16]), pot=pot, lazy=rng.random() < 0.4, nfp=nfp, seed=rng.randint(0, 10 ** 6))
 
@@ -313,6 +317,17 @@ class C07(Property):
             th = [dyadic(rng, 0.25, 3, 3) or 0.125 for _ in range(n)]
             add("exit_thicknesses", f"thick {list_s(pl)} {list_s(th, rat_s)}", impl_thick(pl, th), ["thick", pl, th])
             ctx.count("planes:" + ("weird" if weird else "valid"))
+        # exit planes of slice windows (PotentialArray.__getitem__ -> _exit_planes_of_selection)
+        for _ in range(ctx.n(80, 800)):
+            n = rng.randint(2, 7)
+            pl = gen_planes(rng, n)
+            a = rng.randint(0, n - 1); b = rng.randint(a + 1, n)
+            pa = tagged_potential_array([[j + 1 for j in range(n)]], 4, [1.0] * n, tuple(pl), False)
+            try:
+                impl = "ok " + list_s(int(p) for p in pa[a:b].exit_planes)
+            except Exception as e:  # noqa
+                impl = "err " + err_kind(e)
+            add("PotentialArray.__getitem__ exit planes", f"window {list_s(pl)} {a} {b}", impl, ["window", pl, a, b])
         add("_exit_plane_after", "after _ 3", impl_after([], 3), ["after", [], 3])
         add("exit_thicknesses", "thick _ 1,1", impl_thick([], [1.0, 1.0]), ["thick", [], [1, 1]])
         # int / None exit planes through the two properties
@@ -347,18 +362,35 @@ class C07(Property):
 
         tag = f"{c['pot']}:{c['builder']}:{c['det']}:{'lazy' if c['lazy'] else 'eager'}"
         if c.get("window"):
-            # a slice window of a built potential inherits the exit planes of the full stack
+            # a slice window of a built potential: its slices, thicknesses and exit planes are those of the window, and the
+            # multislice through it is the run through exactly those slices
             import abtem
             from abtem.potentials.iam import PotentialArray as PA
-            full = abtem.Potential(_atoms(c), gpts=c["gpts"], slice_thickness=tuple(c["thickness"])).build(lazy=False)
-            k = c["window"]
-            got = np.asarray(_run(c, full[0:k], entry="builder").array)
-            exp = np.asarray(_run(c, PA(full.array[:k], slice_thickness=tuple(c["thickness"][:k]), extent=4.0), entry="builder").array)
+            spec = tuple(c["spec"]) if isinstance(c["spec"], list) else c["spec"]
+            full = abtem.Potential(_atoms(c), gpts=c["gpts"], slice_thickness=tuple(c["thickness"]), exit_planes=spec).build(lazy=False)
+            a, b = c["window"]
+            win = full[a:b]
+            if not np.array_equal(np.asarray(win.array), np.asarray(full.array)[a:b]) or \
+                    [float(t) for t in win.slice_thickness] != [float(t) for t in c["thickness"][a:b]]:
+                ctx.violation("window-of-potential-array-has-wrong-slices", c, {"window": [a, b]})
+                return
+            parent = [int(p) for p in full.exit_planes]
+            inside = [p - a for p in parent if a <= p < b]
+            exp_planes = ([-1] if (parent[0] == -1 and a == 0) else []) + inside
+            if not inside and not exp_planes:
+                exp_planes = [b - a - 1]  # no plane of the parent lies in the window: the last slice of the window
+            ref = PA(np.asarray(full.array)[a:b], slice_thickness=tuple(c["thickness"][a:b]), extent=4.0, exit_planes=tuple(exp_planes))
+            got = np.asarray(_run(c, win, entry="builder").array)
+            exp = np.asarray(_run(c, ref, entry="builder").array)
             ok, why = _close(got, exp)
             if not ok:
-                nothing = bool(np.all(got == 0)) and tuple(int(p) for p in full[0:k].exit_planes) == (len(c["thickness"]) - 1,)
+                wp = [int(p) for p in win.exit_planes]
+                nothing = bool(np.all(got == 0)) and wp == parent
                 ctx.violation("window-of-potential-array-records-nothing" if nothing else "window-of-potential-array-neq-truncated-run",
-                              c, {"window": [0, k], "exit_planes_of_window": [int(p) for p in full[0:k].exit_planes], "what": why})
+                              c, {"window": [a, b], "exit_planes_of_window": wp, "expected_planes": exp_planes, "what": why})
+            elif [int(p) for p in win.exit_planes] != exp_planes:
+                ctx.violation("window-of-potential-array-has-wrong-exit-planes", c,
+                              {"window": [a, b], "exit_planes_of_window": [int(p) for p in win.exit_planes], "expected_planes": exp_planes})
             return
         if c.get("malformed"):
             # unsorted / repeated / out-of-range explicit exit planes: must be rejected when the potential is made — never
